@@ -29,6 +29,13 @@ Clauses (names used in MONITOR messages):
                a cache the caller built keeps the caller's barrier (`insts`: barrier identity as the constructors
                left it); concurrent readers of one key spread over such instances: at most one database query in
                flight per promised barrier class, all readers receive the same result (`ctake … i=a+b`)
+  single-loader (round 5, `cmix`) concurrent readers of SEVERAL keys, each possibly going on to a second key: no reader
+               panics, every reader of a key whose query ran receives exactly what THAT query returned (not nil,
+               not another key's row, not a foreign object), a reader of a key no query ran for was served from that
+               key's entry; at most one query in flight per key and promised barrier
+  released     (round 5) no operation panics inside the cache layer unless a user-supplied function of that very
+               operation panicked (`db=2` / `db=3`: the query function panics; printed `panicked`, nothing cached,
+               and the key stays readable afterwards — sequentially and for concurrent readers)
 -/
 import GoZero.C06.Model
 import GoZero.C06.Instances
